@@ -17,9 +17,10 @@ from vf.props import c04 as N4
 from vf.props import c06 as N6
 from vf.props.c01 import DIRECTED as C01_DIRECTED
 
+MIN_RANDOM = 150  # random iterations run per shard whatever the wall-clock budget (floors must not depend on machine load)
 SHARDS = {"quick": 4, "thorough": 16}
 BUDGET = {"quick": 22, "thorough": 240}
-MIN_CASES = {"quick": 6000, "thorough": 150000}
+MIN_CASES = {"quick": 2000, "thorough": 100000}
 RULE = ("inputs: C01's directed corpus, frame URLs with every 1-2 token sequence in path / query key / query value, C04's grid, seeded random URL cases, each with variants that "
         "collide under the weaker scheme (C02 spelling transformations -> canonical collisions; C04/C06 irrelevant families -> normalized collisions), query items whose sort order "
         "depends on the escape spelling, escaped tracking keys; option vectors platform_aware x strip_suffix x quoted (canonicalize_url with both quoted values on the inner side). "
@@ -213,7 +214,7 @@ def run(ctx):
         lim = 5000 if ctx.tier == "quick" else 10 ** 7
         names2 = list(S.CASE_T)
         names4 = list(N6.CASE_T)
-        while ctx.time_left() and n < lim:
+        while (ctx.time_left() or n < MIN_RANDOM) and n < lim:
             n += 1
             if n % 2:
                 h, (p, tr), q, f = rng.choice(grid)
